@@ -7,7 +7,7 @@ from .reftensor import KEYS21
 NAMES21 = ["c%d%d" % k for k in KEYS21]
 
 
-def random_invariant(system, rng, nrows, scale=300.0, zero_some=False):
+def random_invariant(system, rng, nrows, scale=300.0, zero_some=False, zero_one_row=False):
     """Random tensors in W: w (nrows, 21).  Coefficients vary smoothly with the row (volume)."""
     B, _ = invariant_basis(system)
     dim = B.shape[1]
@@ -21,6 +21,11 @@ def random_invariant(system, rng, nrows, scale=300.0, zero_some=False):
         c1[z] = 0.0
     t = np.linspace(0.0, 1.0, nrows)[:, None] if nrows > 1 else np.zeros((1, 1))
     coef = c0[None, :] + t * c1[None, :]
+    if zero_one_row and nrows > 1:
+        # an independent parameter that changes sign exactly on a grid volume / vanishes at the first volume only
+        j = int(rng.integers(0, dim))
+        r = int(rng.integers(0, nrows))
+        coef[:, j] = (np.arange(nrows) - r) * (scale / 20.0)
     return coef @ nat.T
 
 
